@@ -2,7 +2,7 @@
 # usage: tools/try_seed.sh <patch.diff> <prop> [<prop>...]
 # Applies a seeded change to /repo, runs the quick checks of the given properties, and undoes the change.
 set -u
-PATCH="$1"; shift
+PATCH="$(readlink -f "$1")"; shift
 cd /repo || exit 2
 if ! git apply --check "$PATCH" 2>/dev/null; then echo "patch does not apply"; exit 2; fi
 git apply "$PATCH"
